@@ -582,6 +582,18 @@ def r7_generated_model_classes(a, tier):
         if not ok:
             rep.fail(gm.qualname, f'model-chain:{[t for _, t in rs]}', f'{what}: the generated module declares {got}; required {want} - the builder synthesizes the class with the declared base, '
                      f'so isinstance tests and walkers keyed on the base see another tree with the generated classes', gm.loc)
+    # builtin type names convert the value (int, str, float ...): the generated module never declares a class of such a name, which its
+    # semantics would find before the builtin and wrap the value in
+    for what, rs in (('a rule whose own type is a builtin (number::int)', [('number', 'int'), ('r2', 'Other')]),
+                     ('several builtin-typed rules', [('a', 'str'), ('b', 'float'), ('c', 'bool'), ('d', 'Thing')]),
+                     ('a builtin at the end of a chain (Num::int)', [('n', 'Num::int')])):
+        ls = generate([mkrule(n, (t,), ['f']) for n, t in rs])
+        declared = [mm.group(1) for ln in ls for mm in [re.match(r'\s*class (\w+)\(', ln)] if mm]
+        clash = sorted(set(declared) & set(vars(_bi)))
+        rep.add({'rule_types': [t for _, t in rs], 'classes_declared': declared, 'named_like_a_builtin': clash, 'ok': not clash})
+        if clash:
+            rep.fail(gm.qualname, f'model-builtin-class:{",".join(clash)}', f'{what}: the generated module declares the class(es) {clash}; its semantics class looks a type name up '
+                     f'among the module\'s classes before the builtins, so `number::int` yields a node int(ast=...) instead of the Python value the synthesized classes give', gm.loc)
     out = [ln for ln in generate([mkrule('r', ('D::B1',), ['a', 'class'], ['b'])]) if '\n' not in ln]  # without the module preamble (one multi-line print)
     grc = a.ct.lookup(GEN, '_gen_rule_class')
     gbc = a.ct.lookup(GEN, '_gen_base_class')
